@@ -93,7 +93,7 @@ def body_pipe(shard, *v):
     if shard.get("concretise"):
         # every symbolic input has been decided by solver forks: the rest of this path is
         # a concrete execution and needs no tracing (solver-driven enumeration)
-        vals = [pick(x, 0, DOM) for x in vals]
+        vals = [pick(x, 0, shard.get("dom", DOM)) for x in vals]
         with untraced():
             return _run_pipe(shard, vals, srcs, flushes)
     return _run_pipe(shard, vals, srcs, flushes)
@@ -288,6 +288,11 @@ def obligations(tier):
         obls.append(_pipe_obl("A/%s/k=%d" % (n, kA),
                               {"template": "chain", "units": [n], "small": small},
                               kA if small or not q else kA, B, flush=(n == "collect")))
+    # eviction order of a history of 3 needs 7 elements over 4 distinct values ([1,2,3,1,4,3,2])
+    obls.append(_pipe_obl("A/unique_max3_list/k=7/dom=3", {"template": "chain", "units": ["unique_max3_list"],
+                                                          "small": True, "dom": 3}, 7, 900 if q else 2400))
+    obls.append(_pipe_obl("A/unique_max3/k=6/dom=3", {"template": "chain", "units": ["unique_max3"],
+                                                     "small": True, "dom": 3}, 6, 900 if q else 2400))
     # B: chains
     kB = 4
     for ch in (SP.chains(2, SP.CORE) if q else SP.chains(2)):
